@@ -7,6 +7,7 @@
 -/
 import HealSparse.Model.Map
 import HealSparse.Model.Value
+import HealSparse.Model.Ranges
 namespace HS
 
 inductive Err where
@@ -128,7 +129,7 @@ def valMatchesKind (k : Kind) (v : Val) : Bool :=
 /-- `update_values_pix(pixels, values, operation=op)`.
     `vals = none` ⇔ `values=None`; `single` ⇔ a scalar (or length-1 array) value. -/
 def apiUpdate (m : MapObj) (op : String) (pix : List Nat) (vals : Option (List Val))
-    (single : Bool) : Except Err MapObj := do
+    (single : Bool) (rawUnique : Option Bool := none) : Except Err MapObj := do
   let m := { m with cache := none }                       -- line 508
   let (vals, single, noAppend) ← match vals with
     | none =>
@@ -148,13 +149,52 @@ def apiUpdate (m : MapObj) (op : String) (pix : List Nat) (vals : Option (List V
   if pix.isEmpty then return m
   if !(vals.all (valMatchesKind m.kind)) then throw .value
   if op == "replace" then
-    if pix.eraseDups.length < pix.length then throw .value
+    match rawUnique with
+    | some ok => if !ok then throw .value
+    | none => if pix.eraseDups.length < pix.length then throw .value
   if !single && vals.length != pix.length then throw .value
   if pix.any (· ≥ m.npix) then throw .index
   let pv : List (Nat × Val) :=
     if single then pix.map (·, vals.headD (.num 0 0)) else pix.zip vals
   let (pre, f) := cellOp m op
   pure { m with st := updatePix m.c m.vc m.st pre f pv noAppend }
+
+/-- `update_values_pix` with an `(M, 2)` array of half-open pixel ranges.
+    `slicePath` ⇔ the total size exceeds `PIXEL_RANGE_THRESHOLD`. -/
+def apiUpdateRanges (m : MapObj) (op : String) (R : List (Nat × Nat)) (val : Option Val)
+    (slicePath : Bool) : Except Err MapObj := do
+  -- line 592: `len(np.unique(pixels)) < len(pixels)` on the raw (M, 2) array
+  let rawOk := !((R.flatMap fun ab => [ab.1, ab.2]).eraseDups.length < R.length)
+  if !slicePath then
+    if R.isEmpty then
+      apiUpdate m op [] (val.map fun v => [v]) true
+    else
+      -- ranges beyond the sphere: IndexError in either path
+      if R.any (fun ab => ab.2 > m.npix) then
+        let _ ← apiUpdate m op [0] (val.map fun v => [v]) true (some rawOk)
+        throw .index
+      apiUpdate m op (expand R) (val.map fun v => [v]) true (some rawOk)
+  else
+    let m := { m with cache := none }
+    let (w, noAppend) ← match val with
+      | none => if op != "replace" then throw .value else pure (clearValue m, true)
+      | some v => pure (v, false)
+    if op != "replace" then
+      if m.kind.isBool then
+        if op != "or" && op != "and" then throw .notImpl
+      else if op == "or" || op == "and" then
+        if !(m.kind.isIntegerMap && m.sent.isZero) then throw .value
+      else if op == "add" then
+        match m.kind with
+        | .recd _ _ => throw .value
+        | _ => pure ()
+      else throw .value
+    if R.isEmpty then return m
+    if !(valMatchesKind m.kind w) then throw .value
+    if op == "replace" && !rawOk then throw .value
+    if R.any (fun ab => ab.2 > m.npix || ab.1 > ab.2) then throw .index
+    let (pre, f) := cellOp m op
+    pure { m with st := updateRanges m.c m.vc m.st (cellEffect pre f w) R noAppend }
 
 /-- `get_values_pix(pixels)` -/
 def apiGet (m : MapObj) (pix : List Nat) : Except Err (List Val) :=
